@@ -1,9 +1,6 @@
 package main
 
 type C06Plan struct{}
-type C07Plan struct{}
-type C09Plan struct{}
 type C10Plan struct{}
 type C11Plan struct{}
 type C12Plan struct{}
-type C16Plan struct{}
